@@ -38,7 +38,7 @@ TIMEOUT = {"quick": 900, "thorough": 7200}
 MIN_CASES = {"quick": 5000, "thorough": 100000}
 REQUIRED_COUNTERS = ["requests_completed_with_own_response", "requests_failed_disconnected", "callers_cancelled", "events_delivered", "timeouts_fired", "stale_answers_dropped", "reconnects", "connections_abandoned", "peer_resets", "cancel_races_response"]
 
-ALPHABET = "RAPHEFGCTXUZKWQ"
+ALPHABET = "RAPHEFGCTXUZKWQV"
 
 
 class Scenario:
@@ -243,6 +243,23 @@ class Scenario:
             if conn is not None:
                 must_fail = [r["id"] for r in self.received if r["conn"] is conn and r["answered"] < 2 and not self.reqs[r["id"]]["task"].done()]
                 conn.close()
+        elif a == "V":
+            # the peer hangs up; while the connector is busy re-establishing the session (anywhere between the TCP connect and
+            # the answer to the last pair-verify step) another caller arrives
+            conn = self.newest_open_secure()
+            if conn is not None:
+                must_fail = [r["id"] for r in self.received if r["conn"] is conn and r["answered"] < 2 and not self.reqs[r["id"]]["task"].done()]
+                conn.close()
+                if self.api == "pipelined":
+                    # (a connection built with concurrency_limit > 1 - which nothing in the library does - lets a caller's
+                    # request through in the middle of pair-verify; not a configuration any property speaks about: here
+                    # the caller arrives when the session is back)
+                    await vloop.settle()
+                else:
+                    for _ in range(self.rng.randint(1, 70)):
+                        await asyncio.sleep(0)
+                    ctx.count("requests_issued_while_reconnecting")
+                self.issue()
         elif a == "U":
             conn = self.newest_open_secure()
             if conn is not None and not any(r["conn"] is conn and r["answered"] < 2 for r in self.received):
@@ -412,7 +429,7 @@ class Scenario:
 
 
 def nontrivial(schedule: str) -> bool:
-    return any(ch in schedule for ch in "PHEFGCTXUZKQ")
+    return any(ch in schedule for ch in "PHEFGCTXUZKQV")
 
 
 async def run_one(ctx, schedule: str, api: str, key) -> None:
@@ -551,7 +568,7 @@ def run(ctx) -> None:
         rng = ctx.rng("C08.random")
         for k in range(ctx.pick(4000, 300000) // ctx.nshards):
             n = rng.randint(6, 30)
-            schedule = "R" + "".join(rng.choice("RRRAAPHEFGCTXUZKWQ") for _ in range(n))
+            schedule = "R" + "".join(rng.choice("RRRAAPHEFGCTXUZKWQV") for _ in range(n))
             await run_one(ctx, schedule, rng.choice(["connection", "pipelined", "pipelined", "pairing"]), ("rand", ctx.shard, k))
 
     vloop.run(main())
